@@ -160,10 +160,10 @@ Definition aval (hp : heap) (a : arr) : sval :=
 
 Definition hint_at (hp : heap) (a : arr) (cnt : nat) (acc : bool) : hint :=
   match a with
-  | None => mkhint false false false 0 cnt acc
+  | None => mkhint false false false 0 cnt acc true
   | Some i => match hget hp i with
-              | None => mkhint false false false 0 cnt acc
-              | Some b => mkhint (shared b) (bimm b) (bnc b) (bsize b) cnt acc
+              | None => mkhint false false false 0 cnt acc true
+              | Some b => mkhint (shared b) (bimm b) (bnc b) (bsize b) cnt acc true
               end
   end.
 
@@ -648,7 +648,7 @@ Qed.
 
 (* ------------------------------------------------------------------ in-place functions against the specification *)
 Lemma hint_private hp i b cnt acc : hget hp i = Some b -> shared b = false -> bimm b = false ->
-  hint_at hp (Some i) cnt acc = mkhint false false (bnc b) (bsize b) cnt acc.
+  hint_at hp (Some i) cnt acc = mkhint false false (bnc b) (bsize b) cnt acc true.
 Proof. intros E S I. unfold hint_at. rewrite E, S, I. reflexivity. Qed.
 
 Lemma bufset_sem hp i b tr pos d cnt acc :
@@ -1076,7 +1076,7 @@ Proof.
     list_eq_k ltac:(fun i => split_at i len).
 Qed.
 
-Definition whint (cnt : nat) (acc : bool) : hint := mkhint false false false 0 cnt acc.
+Definition whint (cnt : nat) (acc : bool) : hint := mkhint false false false 0 cnt acc true.
 
 Definition wval (hp : heap) (a : arr) (off len : nat) : sval :=
   match a with
@@ -1263,4 +1263,115 @@ Proof.
         rewrite ?(proj2 (Nat.eqb_neq esz 0) Ez), Nat.ltb_irrefl. unfold Dn. f_equal.
         unfold wval. rewrite hget_app_r by lia. rewrite Nat.sub_diag. cbn [hget nth_error option_map].
         rewrite F3. f_equal. f_equal. unfold win. rewrite F4. simpl skipn. rewrite norm_length. reflexivity.
+Qed.
+
+(* ------------------------------------------------------------------ C++ entry points *)
+(* array::append = mpt_array_append(len, NULL) + memcpy: the same final state as mpt_array_append(len, data) *)
+Lemma append_at_store hp j used d : length d <> 0 ->
+  match append_at hp j used (zeros (length d)) with
+  | ADone hp1 (Some j') n => lift hp1 (Some j') (do hp2 <- store hp1 j' used d; Ok (hp2, Some j', n))
+  | r => r
+  end = append_at hp j used d.
+Proof.
+  intros Hn. unfold append_at. destruct (hget hp j) as [b|] eqn:E; [|reflexivity].
+  rewrite length_zeros, (proj2 (Nat.eqb_neq _ _) Hn).
+  unfold wr at 1 3. rewrite length_zeros.
+  destruct (Nat.leb_spec (used + length d) (length (bdata b))) as [H|H]; [|reflexivity].
+  cbn [bind lift]. rewrite store_hset by (apply (hget_lt _ _ _ E)). bsimp.
+  rewrite wr_sem by (len_simp; lia). cbn [bind lift]. rewrite hset_hset. f_equal. f_equal.
+  unfold set_used, set_data; cbn. f_equal. list_eq.
+Qed.
+
+Lemma x_append_eq hp a d : x_append hp a d = array_append hp a d.
+Proof.
+  unfold x_append. destruct (Nat.eqb_spec (length d) 0) as [Z|Z].
+  { destruct d; [reflexivity|discriminate]. }
+  unfold array_append. rewrite length_zeros. destruct a as [i|].
+  - destruct (hget hp i) as [b|] eqn:E; [|reflexivity].
+    destruct (negb (btr b =? 0)); [reflexivity|].
+    unfold with_private. destruct ((bsize b - bused b <? length d) || negb (length d =? 0) && (shared b || bimm b)).
+    + destruct (detach hp i (bused b + length d)) as [[hp1 j]| |]; [|reflexivity|reflexivity].
+      apply append_at_store. exact Z.
+    + apply append_at_store. exact Z.
+  - unfold halloc. apply append_at_store. exact Z.
+Qed.
+
+Lemma put_end (l d : list byte) : put l (length l) d = l ++ d.
+Proof.
+  unfold put. rewrite Nat.ltb_irrefl, firstn_all, skipn_all2 by lia. rewrite app_nil_r. reflexivity.
+Qed.
+
+Lemma x_fresh_sem hp a d : ares_ok hp a (x_fresh hp a d) (s_xset d) false.
+Proof.
+  unfold x_fresh. change (let nb := new_buf (length d) false false in
+                          do m <- wr (bdata nb) 0 d; Ok (set_used (set_data nb m) (length d))) with (filled_buf d).
+  pose proof (filled_buf_sem d) as F. destruct (filled_buf d) as [nb| |]; try contradiction.
+  destruct F as [F1 [F2 [F3 [F4 F5]]]]. cbn [ares_ok]. split.
+  - apply (P_fresh0 hp a); assumption.
+  - unfold s_xset, D, aval. rewrite hget_app_r by (rewrite length_unref_opt; lia).
+    change (match a with Some i => hunref hp i | None => hp end) with (unref_opt hp a).
+    rewrite length_unref_opt, Nat.sub_diag. cbn [hget nth_error option_map]. unfold bval. rewrite F3, F4. reflexivity.
+Qed.
+
+Lemma x_set_sem hp a d : aok hp a -> ares_ok hp a (x_set hp a d) (s_xset d) false.
+Proof.
+  intros OK. unfold x_set. destruct a as [i|]; [|apply x_fresh_sem].
+  destruct (OK i eq_refl) as [b [E [W R]]]. rewrite E.
+  destruct (negb (btr b =? 0) || shared b) eqn:Sh; [apply x_fresh_sem|].
+  apply orb_false_elim in Sh. destruct Sh as [Tr Sh]. apply negb_false_iff, Nat.eqb_eq in Tr.
+  unfold shared in Sh. apply Nat.leb_gt in Sh.
+  destruct ((length d <=? bused b) || negb (bsize b - bused b <? length d - bused b)) eqn:Fit; [|apply x_fresh_sem].
+  pose proof W as [L [U A]].
+  assert (Hs : length d <= bsize b).
+  { apply orb_prop in Fit. destruct Fit as [F|F].
+    - apply Nat.leb_le in F. lia.
+    - apply negb_true_iff, Nat.ltb_ge in F. lia. }
+  rewrite wr_sem by lia. cbn [bind lift ares_ok].
+  set (b2 := set_used (set_data b _) _).
+  assert (W2 : buf_wf b2).
+  { subst b2. unfold buf_wf; bsimp. split; [len_simp; lia|]. split; [lia|intros Z; congruence]. }
+  destruct (inplace_done hp (Some i) hp i b b2 (P_same _ _) E ltac:(lia) ltac:(subst b2; bsimp; lia) W2) as [T2 AV2].
+  split; [exact T2|]. rewrite AV2. unfold s_xset, D, bval. subst b2. bsimp. rewrite Tr. repeat f_equal.
+  unfold bview; bsimp. change (firstn 0 (bdata b)) with (@nil N). rewrite app_nil_l. list_eq.
+Qed.
+
+Lemma x_set_str_sem hp a text : ares_ok hp a (x_set_str hp a text) (s_xsetstr text) false.
+Proof.
+  unfold x_set_str. set (nb := set_tr (new_buf (length text + 1) false false) 1).
+  assert (Wn : buf_wf nb) by (apply buf_wf_set_tr_empty; [apply new_buf_wf|reflexivity]).
+  pose proof (alloc_size_ge (length text + 1)) as Hsz.
+  pose proof (buffer_set_sem nb 1 0 text Wn) as B1.
+  assert (C1 : set_cond nb 1 0 (length text) = true).
+  { unfold set_cond. subst nb. bsimp. rewrite (proj2 (Nat.leb_le _ _)) by lia.
+    unfold aligned. rewrite !Nat.mod_1_r. reflexivity. }
+  destruct (buffer_set nb 1 0 text) as [b1| |]; [|congruence|contradiction].
+  destruct B1 as [[K1 [K2 [K3 [K4 K5]]]] [W1 [V1 _]]]. cbn [bind].
+  assert (V1' : bview b1 = text) by (rewrite V1; subst nb; apply put_nil_0).
+  pose proof (buffer_set_sem b1 1 (length text) [0%N] W1) as B2.
+  assert (C2 : set_cond b1 1 (length text) (length [0%N]) = true).
+  { unfold set_cond. rewrite K5, K4. subst nb. bsimp. cbn [length]. rewrite (proj2 (Nat.leb_le _ _)) by lia.
+    unfold aligned. rewrite !Nat.mod_1_r. reflexivity. }
+  destruct (buffer_set b1 1 (length text) [0%N]) as [b2| |]; [|congruence|contradiction].
+  destruct B2 as [[J1 [J2 [J3 [J4 J5]]]] [W2 [V2 _]]]. cbn [ares_ok]. split.
+  - apply (P_fresh0 hp a); [|exact W2]. rewrite J1, K1. reflexivity.
+  - unfold s_xsetstr, D, aval. change (match a with Some i => hunref hp i | None => hp end) with (unref_opt hp a).
+    rewrite hget_app_r by (rewrite length_unref_opt; lia).
+    rewrite length_unref_opt, Nat.sub_diag. cbn [hget nth_error option_map]. unfold bval.
+    rewrite J4, K4, V2, V1'. subst nb. bsimp. rewrite put_end. reflexivity.
+Qed.
+
+Lemma x_assign_slice_sem hp a src off len : aok hp a -> aok hp src ->
+  (match src with
+   | None => off + len <= 0
+   | Some k => match hget hp k with Some c => off + len <= bused c | None => False end
+   end) ->
+  ares_ok hp a (x_assign_slice hp a src off len) (D (Some (0, svec (wval hp src off len)))) false.
+Proof.
+  intros OK OKs Hc. unfold x_assign_slice. destruct src as [k|].
+  - destruct (OKs k eq_refl) as [c [Ec [Wc Rc]]]. rewrite Ec in *. pose proof Wc as [L [U A]].
+    rewrite rd_ok by lia.
+    assert (Wv : svec (wval hp (Some k) off len) = slice off len (bdata c)).
+    { unfold wval. rewrite Ec. cbn [option_map svec]. unfold win, slice, bview. list_eq. }
+    rewrite Wv. apply (x_set_sem hp a _ OK).
+  - cbn [wval svec]. apply (x_set_sem hp a [] OK).
 Qed.
